@@ -20,6 +20,7 @@ PROFILES_QUICK = [
     {"block_size": 256 << 20, "sector": 512, "k": 8, "full": False, "max_len": 2 << 20, "sel": 2},   # ratio 16: SB entries interleaved
     {"block_size": 2 << 20, "sector": 4096, "k": 1, "full": False, "sel": 2, "stale": True},
     {"block_size": 1 << 20, "sector": 512, "k": 1, "full": False, "sel": 3, "stale": True},
+    {"block_size": 1 << 20, "sector": 512, "k": 1, "full": False, "sel": 3, "leave_alloc": True},   # "fixed" flag set, blocks in any order
     {"block_size": 32 << 20, "sector": 4096, "k": 512, "full": False, "max_len": 2 << 20, "sel": 5},  # 4K sectors, ratio 1024, > 1500 BAT entries
     {"block_size": 32 << 20, "sector": 512, "k": 64, "full": False, "max_len": 2 << 20, "sel": 4, "base_mb": 5 << 20},  # ratio 128, data beyond 2^42 bytes
 ]
@@ -55,7 +56,7 @@ def build(img, prof, size_bytes=None):
     blocks = blocks[:npb]
     vf, info = enc_vhdx.build(blocks, block_size=bs, sector_size=prof["sector"], disk_size=size_b,
                               data_base_mb=prof.get("base_mb"), seqs=prof.get("seqs", (5, 6)),
-                              reserved_bits=prof.get("reserved_bits", 0))
+                              reserved_bits=prof.get("reserved_bits", 0), leave_alloc=prof.get("leave_alloc", False))
     return disk.Built(open=lambda: _open(vf), cell=cell, size=size_b, bases={0: info["data_base"]}, files=[vf],
                       note={k_: v for k_, v in prof.items() if k_ != "when"}, cb=cb, stride=ab, sector=prof["sector"])
 
@@ -83,7 +84,7 @@ def make_trace(tid, rng, nops=25, **opt):
     stale = rng.random() < 0.5
     blocks = [(st[i], pp[i] if st[i] == 6 else (rng.randrange(0, npos) if (stale and st[i] in (1, 2, 3)) else None)) for i in range(n)]
     vf, info = enc_vhdx.build(blocks, block_size=bs, sector_size=sector, disk_size=size_b, seqs=rng.choice([(5, 6), (6, 5), (0, 1), (7, 7)]),
-                              reserved_bits=rng.choice([0, 0, 0x1FFFF]))
+                              reserved_bits=rng.choice([0, 0, 0x1FFFF]), leave_alloc=rng.random() < 0.3)
     b = disk.Built(open=lambda: _open(vf), cell=bs, size=size_b, bases={0: info["data_base"]}, sector=sector)
     s = b.open()
     fresh = b.open()
